@@ -17,3 +17,7 @@ pub use time_interval::*;
 pub use time_source::*;
 pub use timestamp::*;
 pub use tlv::*;
+
+#[cfg(feature = "pendulum_project_ntpd_rs_verif")]
+#[path = "/verif/hooks/statime-wire/common_mod.rs"]
+pub mod vh_common_mod;
